@@ -418,37 +418,7 @@ func runC07(p *core.Prog, r *core.Report) {
 			}
 			r.Check(n > 0 && okAll, "C07.R3", construct+"/assign-after-decode", "the loader assigns its content only on the path where the file was read and decoded without error", fmt.Sprintf("%d assignments, all guarded: %v", n, okAll), p.Pos(fn.Pos()))
 		}
-		// execout.File.Load: loaded=true only when the whole load returned nil
-		fl := p.Func(pkgExecout, "File.Load")
-		loaded := p.Field(pkgExecout, "File", "loaded")
-		okLoaded := true
-		nL := 0
-		for _, w := range core.FieldWritesIn(fl, loaded) {
-			nL++
-			k, isK := w.Value.(*ssa.Const)
-			if !isK || k.Value.ExactString() != "true" {
-				continue
-			}
-			// guarded by err == nil of the retry call
-			okG := false
-			core.Instrs(fl, func(in ssa.Instruction) {
-				ifi, ok := in.(*ssa.If)
-				if !ok {
-					return
-				}
-				bo, ok := ifi.Cond.(*ssa.BinOp)
-				if !ok || bo.Op != token.EQL {
-					return
-				}
-				if k, ok := bo.Y.(*ssa.Const); ok && k.IsNil() && ifi.Block().Succs[0] == w.Instr.Block() && isErrorTyped(bo.X.Type()) {
-					okG = true
-				}
-			})
-			if !okG {
-				okLoaded = false
-			}
-		}
-		r.Check(nL > 0 && okLoaded, "C07.R3", "execout.File.Load/loaded", "a cached-output file is flagged loaded only when the load returned no error", "loaded set on another path", p.Pos(fl.Pos()))
+		checkExecoutLoadedFlag(p, r, "C07.R3")
 		// index.File.Load propagates the bitmap decoding error
 		il := p.Func(pkgIndex, "File.Load")
 		okBM := false
@@ -775,4 +745,62 @@ func filterEdgesFrom(es []core.Edge, entry *ssa.BasicBlock, fn *ssa.Function) []
 		}
 	}
 	return out
+}
+
+// checkExecoutLoadedFlag (C07.R3, C01.R5): execout.File.Load flags the file as loaded only over the edge on which the
+// whole load returned a nil error.  Load answers nil at once for a file already flagged, and the walker may reuse a File
+// object whose background preload ran before the file existed: a file flagged loaded after a failed (e.g. not found)
+// load is later served as an empty segment, so the output depends on when the segment job finished.
+func checkExecoutLoadedFlag(p *core.Prog, r *core.Report, rule string) {
+	fl := p.Func(pkgExecout, "File.Load")
+	r.Touch(core.FuncName(fl))
+	loaded := p.Field(pkgExecout, "File", "loaded")
+	var nilEdges []core.Edge
+	core.Instrs(fl, func(in ssa.Instruction) {
+		ifi, ok := in.(*ssa.If)
+		if !ok {
+			return
+		}
+		c, neg := core.StripNot(ifi.Cond)
+		bo, ok := c.(*ssa.BinOp)
+		if !ok || (bo.Op != token.EQL && bo.Op != token.NEQ) {
+			return
+		}
+		k, isK := bo.Y.(*ssa.Const)
+		if !isK || !k.IsNil() || !isErrorTyped(bo.X.Type()) {
+			return
+		}
+		idx := 0
+		if (bo.Op == token.NEQ) != neg {
+			idx = 1
+		}
+		nilEdges = append(nilEdges, core.Edge{From: ifi.Block(), Idx: idx})
+	})
+	okLoaded := true
+	nL := 0
+	for _, w := range core.FieldWritesIn(fl, loaded) {
+		k, isK := w.Value.(*ssa.Const)
+		if !isK || k.Value.ExactString() != "true" {
+			continue
+		}
+		nL++
+		q := core.PathQuery{Fn: fl, CutEdge: func(e core.Edge) bool { return containsEdge(nilEdges, e) }}
+		if _, reach := q.CanReach(nil, func(x ssa.Instruction) bool { return x == w.Instr }); reach || len(nilEdges) == 0 {
+			okLoaded = false
+		}
+	}
+	r.Check(nL > 0 && okLoaded, rule, "execout.File.Load/loaded", "a cached-output file is flagged loaded only when the load returned no error (the flag is reachable only over an `err == nil` edge)", "loaded can be set although the load failed", p.Pos(fl.Pos()))
+	// and the short-circuit at the top answers from the flag alone
+	okShort := false
+	core.Instrs(fl, func(in ssa.Instruction) {
+		ifi, ok := in.(*ssa.If)
+		if !ok {
+			return
+		}
+		c, _ := core.StripNot(ifi.Cond)
+		if f, _ := core.LoadedField(c); f == loaded {
+			okShort = true
+		}
+	})
+	r.Check(okShort, rule, "execout.File.Load/short-circuit", "Load answers at once for a file already flagged loaded (which is why the flag must only follow a successful load)", "no test of the loaded flag", p.Pos(fl.Pos()))
 }
